@@ -5,7 +5,6 @@ package main
 
 import (
 	"fmt"
-	"go/types"
 	"strings"
 )
 
@@ -19,11 +18,19 @@ func (r *rwRT) ruleTmplCombineSplit() {
 	kinds := []string{"kindTrival", "kindIf", "kindSwitch", "kindYield", "kindCombine", "kindFor", "kindNormal"}
 	for _, k := range kinds {
 		for _, term := range []bool{false, true} {
-			st := newState()
 			s0 := Dyn{T: r.astPtr("ExprStmt"), V: leafSym("s0")}
 			s1 := Dyn{T: r.astPtr("ExprStmt"), V: leafSym("s1")}
-			blk := st.alloc(&Obj{T: r.astPtr("BlockStmt").(*types.Pointer).Elem(), Kind: 's', Fields: map[string]AV{"List": SliceV{Elems: []AV{s0, s1}}}})
-			children := st.alloc(&Obj{Kind: 's', Fields: map[string]AV{"block": blk, "kinds": SliceV{Elems: []AV{r.kindConst("kindTrival"), r.kindConst(k)}}, "kind": r.kindConst("kindDelay"), "frozen": mkBool(false), "combineChecked": mkBool(false)}})
+			construct := fmt.Sprintf("last statement %s, terminating=%v", k, term)
+			children, st, berr := r.buildBlock(newState(), r.kindConst("kindDelay"), []AV{s0, s1}, []AV{r.kindConst("kindTrival"), r.kindConst(k)})
+			if berr != nil {
+				c.und("RW.TMPL.COMBINESPLIT", construct, pos, berr.Error())
+				continue
+			}
+			blk, _ := r.astBlockOf(st, children)
+			if blk == nil {
+				c.und("RW.TMPL.COMBINESPLIT", construct, pos, "the block built by mkBlock/push carries no go/ast block")
+				continue
+			}
 			in := r.interp(rwConfig{root: fn, boundaries: map[string]bool{"combineIfNecessary": false, "generateLastNormalIfNecessary": false}})
 			in.Fields["r.yieldAst.funRetParamTy"] = exprLeaf(r, "T")
 			callNormal := Sym{Name: "callNormal", NN: true}
@@ -37,7 +44,6 @@ func (r *rwRT) ruleTmplCombineSplit() {
 			})
 			outs := in.Run(st, fn, []AV{Sym{Name: "r", NN: true}, children}, nil)
 			r.account(in)
-			construct := fmt.Sprintf("last statement %s, terminating=%v", k, term)
 			if len(outs) != 1 || outs[0].Panicked || len(outs[0].Ret) != 1 {
 				c.bad("RW.TMPL.COMBINESPLIT", construct, pos, fmt.Sprintf("%d paths / panic", len(outs)))
 				continue
@@ -53,7 +59,8 @@ func (r *rwRT) ruleTmplCombineSplit() {
 				}
 			} else {
 				follow := o.St.Obj(o.Ret[0])
-				if follow == nil || sameAV(o.Ret[0], children) {
+				followBlk, _ := r.astBlockOf(o.St, o.Ret[0])
+				if follow == nil || followBlk == nil || sameAV(o.Ret[0], children) {
 					err = fmt.Errorf("no fresh continuation block is returned")
 				} else {
 					first := []Pat{pVal{s1}}
@@ -63,9 +70,9 @@ func (r *rwRT) ruleTmplCombineSplit() {
 					}
 					want := lst(pVal{s0}, nd("ReturnStmt", map[string]Pat{"Results": lst(seqCallPat("Combine",
 						seqCallPat("Delay", thunkPat(nd("BlockStmt", map[string]Pat{"List": lst(first...)}))),
-						seqCallPat("Delay", thunkPat(pVal{follow.Fields["block"]}))))}))
+						seqCallPat("Delay", thunkPat(pVal{followBlk}))))}))
 					err = matchTmpl(o.St, list, want)
-					if err == nil && !sameAV(follow.Fields["kind"], r.kindConst("kindDelay")) {
+					if err == nil && !blockHasConst(o.St, o.Ret[0], r.kindConst("kindDelay")) {
 						err = fmt.Errorf("the continuation block is not a thunk-body block")
 					}
 				}
